@@ -31,7 +31,7 @@ func init() {
 			}
 			return ps
 		},
-		MinObserved: []string{"startups", "dials_after_ready_true", "failing_addresses_checked", "pollers_saw_false_before_true", "served_after_accept_failure_episodes", "served_next_to_silent_tls_peers"},
+		MinObserved: []string{"startups", "dials_after_ready_true", "failing_addresses_checked", "pollers_saw_false_before_true", "served_after_accept_failure_episodes", "served_next_to_silent_tls_peers", "served_while_an_onclose_callback_runs"},
 	})
 }
 
@@ -162,6 +162,14 @@ func c17Run(c *Ctx) {
 		" 127.0.0.1:%d", "127.0.0.1 :%d", "127.0.0.1:%d ", "127.0.0.1:+%d", "tcp://127.0.0.1:%d", "127.0.0.1:%d/", "127.0.0.1::%d", "[::1%%lo]:%d", "0x7f.0.0.1:%d", "127.1:%d", "[]:%d", "*:%d"} {
 		failing = append(failing, fmt.Sprintf(f, freePort()))
 	}
+	// ports written in other notations: a leading zero (decimal all the same for the resolver; the digits are chosen so
+	// that an octal reading would give a different port), hexadecimal, octal and binary literals, digit separators
+	if p := freePortWithOctalDigits(); p > 0 {
+		failing = append(failing, fmt.Sprintf("127.0.0.1:0%d", p), fmt.Sprintf("localhost:00%d", p))
+	}
+	fp := freePort()
+	failing = append(failing, fmt.Sprintf("127.0.0.1:0x%x", fp), fmt.Sprintf("127.0.0.1:0X%X", fp), fmt.Sprintf("127.0.0.1:0o%o", fp), fmt.Sprintf("127.0.0.1:0b%b", fp),
+		fmt.Sprintf("127.0.0.1:%d_%d", fp/10, fp%10), fmt.Sprintf("127.0.0.1:%d.0", fp), fmt.Sprintf("127.0.0.1:%de0", fp))
 	// a port that is in use by ANOTHER RUNNING gldap SERVER (not just by a plain listener)
 	other, oerr := startSrv(SrvCfg{}, func(m *gldap.Mux) {
 		m.Bind(func(w *gldap.ResponseWriter, req *gldap.Request) {
@@ -340,6 +348,38 @@ func c17Disturbances(c *Ctx) {
 		c.Count("served_after_accept_failure_episodes", 1)
 		srv.StopWithin(patience)
 
+		// an OnClose callback of an earlier connection that takes its time (held by the harness): connections that
+		// arrive meanwhile are served
+		holdClose := make(chan struct{})
+		var closing atomic.Int64
+		osrv, err := startSrv(SrvCfg{OnClose: func(int) {
+			closing.Add(1)
+			select {
+			case <-holdClose:
+			case <-time.After(patience):
+			}
+		}}, bindOK)
+		if err != nil {
+			c.Inconclusive("server start: " + err.Error())
+			return
+		}
+		if err := c17BindOver(osrv.Addr, nil); err != nil {
+			c.Inconclusive("first connection: " + err.Error())
+		} else {
+			for dl := time.Now().Add(patience); closing.Load() == 0 && time.Now().Before(dl); time.Sleep(200 * time.Microsecond) {
+			}
+			if closing.Load() > 0 {
+				if err := c17Served(osrv.Addr, nil, bound); err != nil && osrv.S.Ready() {
+					c.Violate("Ready() was true but a connection attempt failed or was not served", fmt.Sprintf("while the OnClose callback of an earlier connection is still running: Ready()=true, Stop not called, yet a new connection is not served within %s: %v", bound, err), map[string]any{"episode": ep})
+				} else if err == nil {
+					c.Count("dials_after_ready_true", 1)
+					c.Count("served_while_an_onclose_callback_runs", 1)
+				}
+			}
+		}
+		close(holdClose)
+		osrv.StopWithin(patience)
+
 		tsrv, err := startSrv(SrvCfg{TLS: pki.ServerOnly}, bindOK)
 		if err != nil {
 			c.Inconclusive("server start: " + err.Error())
@@ -366,4 +406,18 @@ func c17Disturbances(c *Ctx) {
 		}
 		tsrv.StopWithin(patience)
 	}
+}
+
+// freePortWithOctalDigits finds a free port whose decimal digits are all below 8 and whose octal reading is a
+// different, valid port.
+func freePortWithOctalDigits() int {
+	for _, p := range []int{41234, 35671, 42736, 51234, 37654, 44444, 53210, 36173, 47121, 40123} {
+		l, err := net.Listen("tcp", fmt.Sprintf("127.0.0.1:%d", p))
+		if err != nil {
+			continue
+		}
+		l.Close()
+		return p
+	}
+	return 0
 }
